@@ -171,7 +171,8 @@ func checkClosed(res *CaseResult, hr *hostileRun, class string) {
 	}
 	// a follow-up top-level call on the same EVM must be announced as a depth-0 Start
 	n0 := len(hr.fs.L.Events)
-	ir := hr.fs.Invoke(h.TxSpec{Entry: h.ECall, From: h.Sender, To: h.EOARich, Gas: 30000, Value: big.NewInt(1), NoPrepare: true})
+	// (zero value: the hostile program may have emptied or destroyed the sender, and a refused transfer returns before the tracer is told)
+	ir := hr.fs.Invoke(h.TxSpec{Entry: h.ECall, From: h.Sender, To: h.ContractAddr(0), Gas: 30000, Value: new(big.Int)})
 	if ir.Panic != "" {
 		res.Fail(Key("panic-followup", panicLocus(ir.PanicStk), class), "follow-up call panicked: "+firstLine(ir.Panic), hr.desc, clip(ir.PanicStk, 1500))
 		return
